@@ -353,6 +353,103 @@ theorem exec_loc (ctx : Lscr.Ctx) (j : Nat) (x : Node) (hp : ctx.localVars[j]? =
   unfold process1
   simp only [recIndex_six st j hb, pyGet_some _ _ _ hp, Bind.bind, Except.bind, pure, Except.pure, PState.push]
 
+/-- name of the argument-list node: `<load_list>` when the call's result is used (opcodes 43 / 83), `load_list` for a command (42 / 82) -/
+def listName (res : Bool) : Str := if res then S "<load_list>" else S "load_list"
+
+theorem exec_args1 (ctx : Lscr.Ctx) (res : Bool) (n : Nat) (a : Int) (st : PState) (hlen : n ≤ st.stack.length) :
+    execI ctx (.op2 (if res then 0x43 else 0x42) n) a st
+      = .ok { st with stack := .loadList (listName res) a (st.stack.take n) :: st.stack.drop n } := by
+  have hk : ¬ ("param1" = "bi" ∨ "param1" = "tri") := by decide
+  cases res with
+  | true =>
+    have hl : Opcodes.opcodes.lookup 0x43 = some { cls := "LoadLListOpcode", impl := "LoadListOpcode", nbytes := 2, kind := "param1", attrs := [("name", "<load_list>")] } := rfl
+    simp only [if_true, execI, hl, hk, if_false]
+    unfold process1
+    simp only [attr, List.lookup, hlen, if_true, PState.push, Bind.bind, Except.bind, pure, Except.pure, listName]
+    rfl
+  | false =>
+    have hl : Opcodes.opcodes.lookup 0x42 = some { cls := "LoadListOpcode", impl := "LoadListOpcode", nbytes := 2, kind := "param1", attrs := [("name", "load_list")] } := rfl
+    simp only [Bool.false_eq_true, if_false, execI, hl, hk]
+    unfold process1
+    simp only [attr, List.lookup, hlen, if_true, PState.push, Bind.bind, Except.bind, pure, Except.pure, listName]
+    rfl
+
+theorem exec_args2 (ctx : Lscr.Ctx) (res : Bool) (n : Nat) (a : Int) (st : PState) (hlen : n ≤ st.stack.length) :
+    execI ctx (.op3 (if res then 0x83 else 0x82) n) a st
+      = .ok { st with stack := .loadList (listName res) a (st.stack.take n) :: st.stack.drop n } := by
+  have e : n / 256 * 256 + n % 256 = n := by omega
+  cases res with
+  | true =>
+    have hl : Opcodes.opcodes.lookup 0x83 = some { cls := "LoadLongLListOpcode", impl := "LoadLongListOpcode", nbytes := 3, kind := "param2", attrs := [("name", "<load_list>")] } := rfl
+    simp only [if_true, execI, hl]
+    unfold process2
+    simp only [attr, List.lookup, e, hlen, if_true, PState.push, Bind.bind, Except.bind, pure, Except.pure, listName]
+    rfl
+  | false =>
+    have hl : Opcodes.opcodes.lookup 0x82 = some { cls := "LoadLongListOpcode", impl := "LoadLongListOpcode", nbytes := 3, kind := "param2", attrs := [("name", "load_list")] } := rfl
+    simp only [Bool.false_eq_true, if_false, execI, hl]
+    unfold process2
+    simp only [attr, List.lookup, e, hlen, if_true, PState.push, Bind.bind, Except.bind, pure, Except.pure, listName]
+    rfl
+
+theorem argsInstr_ok (res : Bool) (n : Nat) (s0 s1 : St) (code : List Instr) (h : argsInstr res n s0 = .ok (code, s1)) :
+    s1 = s0 ∧ ∃ i, code = [i] ∧ i.opc ≠ 153 ∧ ∀ (ctx : Lscr.Ctx) (a : Int) (st : PState), n ≤ st.stack.length →
+      execI ctx i a st = .ok { st with stack := .loadList (listName res) a (st.stack.take n) :: st.stack.drop n } := by
+  unfold argsInstr at h
+  split at h
+  · simp only [M_pure_ok, Prod.mk.injEq] at h
+    obtain ⟨rfl, rfl⟩ := h
+    refine ⟨rfl, _, rfl, by cases res <;> simp [Instr.opc], fun ctx a st hl => exec_args1 ctx res n a st hl⟩
+  · split at h
+    · simp only [M_pure_ok, Prod.mk.injEq] at h
+      obtain ⟨rfl, rfl⟩ := h
+      refine ⟨rfl, _, rfl, by cases res <;> simp [Instr.opc], fun ctx a st hl => exec_args2 ctx res n a st hl⟩
+    · simp [Spec.fail] at h
+
+theorem exec_tolist (ctx : Lscr.Ctx) (a : Int) (st : PState) (x : Node) (rest : List Node) (hs : st.stack = x :: rest) :
+    execI ctx (.op1 0x1e) a st = .ok { st with stack := .toList a x :: rest } := by
+  have hl : Opcodes.opcodes.lookup 0x1e = some { cls := "ToListOpcode", impl := "ToListOpcode", nbytes := 1, kind := "plain", attrs := [] } := rfl
+  simp only [execI, hl]
+  unfold process0
+  simp only [PState.pop, hs, PState.push, Bind.bind, Except.bind, pure, Except.pure]
+
+theorem lt_listName (res : Bool) (p : Int) (ops : List Node) : nameStartsLt (.loadList (listName res) p ops) = .ok res := by
+  cases res <;> simp [nameStartsLt, Node.name, Lscr.Name.asStr, listName, Bind.bind, Except.bind, pure, Except.pure] <;> decide
+
+/-- opcode 56: call of a handler of the same script; pushed when the result is used, a statement otherwise -/
+theorem exec_calllocal (ctx : Lscr.Ctx) (k : Nat) (f : Spec.Name) (hf : ctx.localFuncs[k]? = some f) (a : Int) (st : PState) (res : Bool)
+    (p : Int) (ops : List Node) (rest : List Node) (hs : st.stack = .loadList (listName res) p ops :: rest) :
+    execI ctx (.op2 0x56 k) a st = .ok (if res
+      then { st with stack := .callFn (.s f) a (.loadList (listName res) p ops) true false true .none :: rest }
+      else { st with stack := rest, stmts := st.stmts ++ [.stmt a (.callFn (.s f) a (.loadList (listName res) p ops) true false true .none)] }) := by
+  have hl : Opcodes.opcodes.lookup 0x56 = some { cls := "CallLocalOpcode", impl := "CallLocalOpcode", nbytes := 2, kind := "param1", attrs := [] } := rfl
+  have hk : ¬ ("param1" = "bi" ∨ "param1" = "tri") := by decide
+  simp only [execI, hl, hk, if_false]
+  unfold process1
+  simp only [pyGet_some _ _ _ hf, PState.pop, hs, pushOrStmt, lt_listName, Bind.bind, Except.bind, pure, Except.pure, PState.push,
+    PState.addStmt]
+  cases res <;> rfl
+
+/-- opcode 57: call of an external function / command -/
+theorem exec_callext (ctx : Lscr.Ctx) (i : Nat) (f : Spec.Name) (hf : ctx.names[i]? = some f) (a : Int) (st : PState) (res : Bool)
+    (p : Int) (ops : List Node) (rest : List Node) (hs : st.stack = .loadList (listName res) p ops :: rest) :
+    execI ctx (.op2 0x57 i) a st = .ok (if res
+      then { st with stack := .callFn (.s f) a (.loadList (listName res) p ops) true false false .none :: rest }
+      else { st with stack := rest, stmts := st.stmts ++ [.stmt a (.callFn (.s f) a (.loadList (listName res) p ops) true false false .none)] }) := by
+  have hl : Opcodes.opcodes.lookup 0x57 = some { cls := "CallExternalOpcode", impl := "CallExternalOpcode", nbytes := 2, kind := "param1", attrs := [] } := rfl
+  have hk : ¬ ("param1" = "bi" ∨ "param1" = "tri") := by decide
+  simp only [execI, hl, hk, if_false]
+  unfold process1
+  simp only [nameAt, pyGet_some _ _ _ hf, PState.pop, hs, pushOrStmt, lt_listName, Bind.bind, Except.bind, pure, Except.pure, PState.push,
+    PState.addStmt]
+  cases res <;> rfl
+
+theorem embL_length : ∀ (as : List Expr) (ns : List Node), EmbL as ns → ns.length = as.length
+  | [], ns, h => by simp only [EmbL] at h; subst h; rfl
+  | e :: es, ns, h => by
+    obtain ⟨x, xs, rfl, _, hxs⟩ := h
+    simp [embL_length es xs hxs]
+
 /-! ### the relation between the scheme's lowering context and the model's parse context -/
 
 /-- what the container layer (L5) establishes: the model's context holds the scheme's final name table and constant pool, the
@@ -424,6 +521,7 @@ theorem vars_sub_left {G : List Spec.Name} {x y : List Spec.Name} (h : ∀ g ∈
 theorem vars_sub_right {G : List Spec.Name} {x y : List Spec.Name} (h : ∀ g ∈ x ++ y, g ∈ G) : ∀ g ∈ y, g ∈ G :=
   fun g hg => h g (List.mem_append_right _ hg)
 
+mutual
 /-- **L2, the stack lemma.** For every expression of the fragment and every successful lowering: the name table / constant
     pool only grow; no emitted opcode is the mis-registered 0x99; and in any model context related to a final state that extends
     the lowering's, running the code from any address and any state with 6-byte constant records pushes exactly one node, the
@@ -538,20 +636,165 @@ theorem stack_lemma : ∀ (e : Expr), FragE e = true → ∀ (c : Spec.Ctx) (s0 
     rw [hr2]
     simp only
     rw [runIs_single, exec_bin ctx o _ _ n1 n2 st.stack rfl]
+  | .field x, hf, c, s0, s1, code, h => by
+    simp only [FragE] at hf
+    rw [lowerExpr] at h
+    simp only [M_bind_ok, M_pure_ok, Prod.mk.injEq] at h
+    obtain ⟨cx, s', hx, rfl, rfl⟩ := h
+    obtain ⟨hext, hop, hrun⟩ := stack_lemma x hf c s0 _ cx hx
+    refine ⟨hext, ?_, ?_⟩
+    · intro i hi
+      rcases List.mem_append.mp hi with hi | hi
+      · exact hop i hi
+      · simp only [List.mem_singleton] at hi; subst hi; simp [Instr.opc]
+    intro sF ctx hF hrel G hG a st hb hgv
+    obtain ⟨n, gv1, hemb, hgv1, hr1⟩ := hrun sF ctx hF hrel G (by simpa [Expr.vars] using hG) a st hb hgv
+    refine ⟨_, gv1, ⟨((a + codeSize cx : Nat) : Int), n, rfl, hemb⟩, hgv1, ?_⟩
+    rw [runIs_append, hr1]
+    simp only [Except.bind]
+    rw [runIs_single, exec_field ctx _ _ n st.stack rfl]
+  | .call f as, hf, c, s0, s1, code, h => by
+    simp only [FragE, Bool.and_eq_true] at hf
+    obtain ⟨⟨⟨_, _⟩, _⟩, hfl⟩ := hf
+    rw [lowerExpr] at h
+    simp only [M_bind_ok] at h
+    obtain ⟨ca, s', ha, cn, s'', hn, h⟩ := h
+    obtain ⟨hext, hop, hrun⟩ := args_lemma as hfl c s0 _ ca ha
+    obtain ⟨rfl, i, rfl, hiop, hiex⟩ := argsInstr_ok true as.length _ _ _ hn
+    cases hidx : idxOf f c.handlers 0 with
+    | some k =>
+      rw [hidx] at h
+      simp only [M_bind_ok, M_pure_ok, Prod.mk.injEq] at h
+      obtain ⟨cc, s3, hcc, rfl, rfl⟩ := h
+      obtain ⟨rfl, rfl, hk⟩ := op2c_ok _ _ _ _ _ hcc
+      refine ⟨hext, ?_, ?_⟩
+      · intro j hj
+        rcases List.mem_append.mp hj with hj | hj
+        · rcases List.mem_append.mp hj with hj | hj
+          · exact hop j hj
+          · simp only [List.mem_singleton] at hj; subst hj; exact hiop
+        · simp only [List.mem_singleton] at hj; subst hj; simp [Instr.opc]
+      intro sF ctx hF hrel G hG a st hb hgv
+      obtain ⟨ns, gv1, hemb, hgv1, hr1⟩ := hrun sF ctx hF hrel G (by simpa [Expr.vars] using hG) a st hb hgv
+      have hlen := embL_length as ns hemb
+      have hle : as.length ≤ (ns.reverse ++ st.stack).length := by simp; omega
+      have htake : (ns.reverse ++ st.stack).take as.length = ns.reverse := by
+        rw [List.take_append_of_le_length (by simp; omega), List.take_of_length_le (by simp; omega)]
+      have hdrop : (ns.reverse ++ st.stack).drop as.length = st.stack := by
+        rw [List.drop_append_of_le_length (by simp; omega), List.drop_of_length_le (by simp; omega), List.nil_append]
+      refine ⟨_, gv1, ⟨((a + codeSize (ca ++ [i]) : Nat) : Int), ((a + codeSize ca : Nat) : Int), true, ns, rfl, hemb⟩, hgv1, ?_⟩
+      rw [runIs_append, runIs_append, hr1]
+      simp only [Except.bind]
+      rw [runIs_single, hiex ctx _ { st with stack := ns.reverse ++ st.stack, gvars := gv1 } hle]
+      simp only [htake, hdrop]
+      rw [runIs_single, exec_calllocal ctx k f (hrel.lfn f k hidx) _ _ true _ ns.reverse st.stack rfl]
+      rfl
+    | none =>
+      rw [hidx] at h
+      simp only [M_bind_ok, M_pure_ok, Prod.mk.injEq] at h
+      obtain ⟨ni, s3, hni, cc, s4, hcc, rfl, rfl⟩ := h
+      obtain ⟨hext2, hget, hlt, _⟩ := nameIdx_ok _ _ _ _ hni
+      obtain ⟨rfl, rfl, hk⟩ := op2c_ok _ _ _ _ _ hcc
+      refine ⟨hext.trans hext2, ?_, ?_⟩
+      · intro j hj
+        rcases List.mem_append.mp hj with hj | hj
+        · rcases List.mem_append.mp hj with hj | hj
+          · exact hop j hj
+          · simp only [List.mem_singleton] at hj; subst hj; exact hiop
+        · simp only [List.mem_singleton] at hj; subst hj; simp [Instr.opc]
+      intro sF ctx hF hrel G hG a st hb hgv
+      have hnm : ctx.names[ni]? = some f := by rw [hrel.names]; exact hF.name hget
+      obtain ⟨ns, gv1, hemb, hgv1, hr1⟩ := hrun sF ctx (hext2.trans hF) hrel G (by simpa [Expr.vars] using hG) a st hb hgv
+      have hlen := embL_length as ns hemb
+      have hle : as.length ≤ (ns.reverse ++ st.stack).length := by simp; omega
+      have htake : (ns.reverse ++ st.stack).take as.length = ns.reverse := by
+        rw [List.take_append_of_le_length (by simp; omega), List.take_of_length_le (by simp; omega)]
+      have hdrop : (ns.reverse ++ st.stack).drop as.length = st.stack := by
+        rw [List.drop_append_of_le_length (by simp; omega), List.drop_of_length_le (by simp; omega), List.nil_append]
+      refine ⟨_, gv1, ⟨((a + codeSize (ca ++ [i]) : Nat) : Int), ((a + codeSize ca : Nat) : Int), false, ns, rfl, hemb⟩, hgv1, ?_⟩
+      rw [runIs_append, runIs_append, hr1]
+      simp only [Except.bind]
+      rw [runIs_single, hiex ctx _ { st with stack := ns.reverse ++ st.stack, gvars := gv1 } hle]
+      simp only [htake, hdrop]
+      rw [runIs_single, exec_callext ctx ni f hnm _ _ true _ ns.reverse st.stack rfl]
+      rfl
+  | .list as, hf, c, s0, s1, code, h => by
+    simp only [FragE] at hf
+    rw [lowerExpr] at h
+    simp only [M_bind_ok, M_pure_ok, Prod.mk.injEq] at h
+    obtain ⟨ca, s', ha, cn, s'', hn, rfl, rfl⟩ := h
+    obtain ⟨hext, hop, hrun⟩ := args_lemma as hf c s0 _ ca ha
+    obtain ⟨rfl, i, rfl, hiop, hiex⟩ := argsInstr_ok true as.length _ _ _ hn
+    refine ⟨hext, ?_, ?_⟩
+    · intro j hj
+      rcases List.mem_append.mp hj with hj | hj
+      · rcases List.mem_append.mp hj with hj | hj
+        · exact hop j hj
+        · simp only [List.mem_singleton] at hj; subst hj; exact hiop
+      · simp only [List.mem_singleton] at hj; subst hj; simp [Instr.opc]
+    intro sF ctx hF hrel G hG a st hb hgv
+    obtain ⟨ns, gv1, hemb, hgv1, hr1⟩ := hrun sF ctx hF hrel G (by simpa [Expr.vars] using hG) a st hb hgv
+    have hlen := embL_length as ns hemb
+    have hle : as.length ≤ (ns.reverse ++ st.stack).length := by simp; omega
+    have htake : (ns.reverse ++ st.stack).take as.length = ns.reverse := by
+      rw [List.take_append_of_le_length (by simp; omega), List.take_of_length_le (by simp; omega)]
+    have hdrop : (ns.reverse ++ st.stack).drop as.length = st.stack := by
+      rw [List.drop_append_of_le_length (by simp; omega), List.drop_of_length_le (by simp; omega), List.nil_append]
+    refine ⟨_, gv1, ⟨((a + codeSize (ca ++ [i]) : Nat) : Int), ((a + codeSize ca : Nat) : Int), ns, rfl, hemb⟩, hgv1, ?_⟩
+    rw [runIs_append, runIs_append, hr1]
+    simp only [Except.bind]
+    rw [runIs_single, hiex ctx _ { st with stack := ns.reverse ++ st.stack, gvars := gv1 } hle]
+    simp only [htake, hdrop]
+    rw [runIs_single, exec_tolist ctx _ _ _ st.stack rfl]
+    rfl
   | .str _, hf, _, _, _, _, _ => by simp [FragE] at hf
   | .float _ _, hf, _, _, _, _, _ => by simp [FragE] at hf
   | .sym _, hf, _, _, _, _, _ => by simp [FragE] at hf
   | .me, hf, _, _, _, _, _ => by simp [FragE] at hf
-  | .field _, hf, _, _, _, _, _ => by simp [FragE] at hf
-  | .call _ _, hf, _, _, _, _, _ => by simp [FragE] at hf
   | .mcall _ _ _, hf, _, _, _, _, _ => by simp [FragE] at hf
-  | .list _, hf, _, _, _, _, _ => by simp [FragE] at hf
   | .plist _, hf, _, _, _, _, _ => by simp [FragE] at hf
   | .the _ _ _, hf, _, _, _, _, _ => by simp [FragE] at hf
   | .key _, hf, _, _, _, _, _ => by simp [FragE] at hf
   | .movie _, hf, _, _, _, _, _ => by simp [FragE] at hf
   | .oprop _ _, hf, _, _, _, _, _ => by simp [FragE] at hf
   | .chunk _ _ _ _, hf, _, _, _, _, _ => by simp [FragE] at hf
+/-- argument lists: every argument is pushed, first argument deepest -/
+theorem args_lemma : ∀ (as : List Expr), FragL as = true → ∀ (c : Spec.Ctx) (s0 s1 : St) (code : List Instr),
+    lowerArgs c as s0 = .ok (code, s1) →
+    Ext s0 s1 ∧ (∀ i ∈ code, i.opc ≠ 153) ∧
+    ∀ (sF : St) (ctx : Lscr.Ctx), Ext s1 sF → Rel c sF ctx → ∀ (G : List Spec.Name), (∀ g ∈ Expr.varsList .glob as, g ∈ G) →
+      ∀ (a : Nat) (st : PState), st.bpc = 6 → GvOk G st.gvars →
+        ∃ ns gv', EmbL as ns ∧ GvOk G gv' ∧ runIs ctx a code st = .ok { st with stack := ns.reverse ++ st.stack, gvars := gv' }
+  | [], _, c, s0, s1, code, h => by
+    rw [lowerArgs] at h
+    simp only [M_pure_ok, Prod.mk.injEq] at h
+    obtain ⟨rfl, rfl⟩ := h
+    refine ⟨Ext.refl _, by simp, ?_⟩
+    intro sF ctx _ _ G _ a st _ hgv
+    exact ⟨[], st.gvars, rfl, hgv, by simp [runIs]⟩
+  | e :: es, hf, c, s0, s1, code, h => by
+    simp only [FragL, Bool.and_eq_true] at hf
+    rw [lowerArgs] at h
+    simp only [M_bind_ok, M_pure_ok, Prod.mk.injEq] at h
+    obtain ⟨ce, s', he, cs, s'', hes, rfl, rfl⟩ := h
+    obtain ⟨hext1, hop1, hrun1⟩ := stack_lemma e hf.1 c s0 _ ce he
+    obtain ⟨hext2, hop2, hrun2⟩ := args_lemma es hf.2 c _ _ cs hes
+    refine ⟨hext1.trans hext2, ?_, ?_⟩
+    · intro i hi
+      rcases List.mem_append.mp hi with hi | hi
+      · exact hop1 i hi
+      · exact hop2 i hi
+    intro sF ctx hF hrel G hG a st hb hgv
+    have hG' : ∀ g ∈ e.vars .glob ++ Expr.varsList .glob es, g ∈ G := by simpa [Expr.varsList] using hG
+    obtain ⟨n, gv1, hemb, hgv1, hr1⟩ := hrun1 sF ctx (hext2.trans hF) hrel G (vars_sub_left hG') a st hb hgv
+    obtain ⟨ns, gv2, hembs, hgv2, hr2⟩ := hrun2 sF ctx hF hrel G (vars_sub_right hG') (a + codeSize ce)
+      { st with stack := n :: st.stack, gvars := gv1 } hb hgv1
+    refine ⟨n :: ns, gv2, ⟨n, ns, rfl, hemb, hembs⟩, hgv2, ?_⟩
+    rw [runIs_append, hr1]
+    simp only [Except.bind]
+    rw [hr2]
+    simp [List.append_assoc]
+end
 
 /-! ### L3: statements -/
 
